@@ -287,10 +287,10 @@ func (e *SpecEnv) selectField(x Term, name string) (Term, error) {
 		}
 		f := sst.Field(idx)
 		if inMem {
-			ck := fieldComp(st, f)
+			ck := cur.Space + fieldComp(st, f)
 			if isStruct(f.Type()) {
 				vc.comp(ck, "")
-				cur = Term{S: vc.subRef(ck, cur.S), Sort: "Int", T: f.Type(), Addr: true}
+				cur = Term{S: vc.subRef(ck, cur.S), Sort: "Int", T: f.Type(), Addr: true, Space: cur.Space}
 			} else {
 				cur = Term{S: fmt.Sprintf("(select %s %s)", vc.getCompIn(e.heap, ck, vc.fieldSort(f)), cur.S), Sort: vc.sortOf(f.Type()), T: f.Type()}
 				if e.nbound == 0 {
@@ -314,7 +314,7 @@ func derefNamed(t types.Type) (*types.Named, bool) {
 
 func (e *SpecEnv) materialize(t Term) Term {
 	if t.Addr {
-		return Term{S: e.vc.loadStructAt(e.heap, t.S, t.T), Sort: e.vc.structSort(t.T), T: t.T}
+		return Term{S: e.vc.loadStructAt(e.heap, t.S, t.T, t.Space), Sort: e.vc.structSort(t.T), T: t.T}
 	}
 	return t
 }
@@ -945,7 +945,11 @@ func (vc *VC) resolveLocal(name string, at *ssa.BasicBlock, heap Heap, phiOverri
 		}
 		elem := best.Type().Underlying().(*types.Pointer).Elem()
 		if isStruct(elem) {
-			return Term{S: t.S, Sort: "Int", T: elem, Addr: true}, true
+			sp := ""
+			if al, ok := best.(*ssa.Alloc); ok {
+				sp = vc.localAllocs[al]
+			}
+			return Term{S: t.S, Sort: "Int", T: elem, Addr: true, Space: sp}, true
 		}
 		return Term{S: vc.loadAddrIn(heap, a), Sort: vc.sortOf(elem), T: elem}, true
 	}
